@@ -356,6 +356,12 @@ func (api *API) decodeArray(ctx context.Context, b []byte, value reflect.Value, 
 
 	// check if it is an array of bytes
 	if sliceValueType.AssignableTo(bytesType) {
+		if opts.validation {
+			// the bounds of the type settings apply to byte arrays on decode as they do on encode
+			if err := ts.checkMinMaxBounds(value); err != nil {
+				return 0, err
+			}
+		}
 		deseri := serializer.NewDeserializer(b)
 		if objectType := ts.ObjectType(); objectType != nil {
 			typeDen, objectCode, err := getTypeDenotationAndCode(objectType)
